@@ -349,9 +349,9 @@ func run(c Case) kit.Result {
 	}
 	var (
 		collapses, reloads, reloadsHAMT, toHAMT, toBasic, refused, replaces, missRemoves int
-		anyEdit, reloadAfterEdit, reloadBetweenEdits                                    bool
-		loadedHAMT                                                                      bool // current HAMT object came from NewHAMTDirectoryFromNode
-		maxEntries                                                                      int
+		anyEdit, reloadAfterEdit, reloadBetweenEdits                                     bool
+		loadedHAMT                                                                       bool // current HAMT object came from NewHAMTDirectoryFromNode
+		maxEntries                                                                       int
 	)
 	verify := func(when, api string) *kit.Result {
 		got, err := enumerate(ctx, dir, api)
@@ -622,8 +622,8 @@ func run(c Case) kit.Result {
 
 var spec = kit.Spec[Case]{
 	Prop: "C15", Name: "main",
-	Rule: "kind {basic, pure HAMT, dynamic} x fanout {8..1024, default} x maxLinks x per-directory threshold x estimation mode x CID builder x stat; <=50 (thorough 60) ops over a per-case pool of hash-prefix-colliding (9-32 common murmur3 bits), unicode, hex-like, whitespace and long (<=300 B) names: AddChild new/replace, RemoveChild present/missing, Find, Links, ForEachLink, EnumLinksAsync, reload with MFS-style settings carry-over; map model compared after every mutation, all APIs after every reload and at the end; non-trivial = a removal from a HAMT collapsed a sub-shard (model shard count decreased) or a reload happened between edits",
-	Quick: 2000, Thorough: 8000,
+	Rule:  "kind {basic, pure HAMT, dynamic} x fanout {8..1024, default} x maxLinks x per-directory threshold x estimation mode x CID builder x stat; <=50 (thorough 60) ops over a per-case pool of hash-prefix-colliding (9-32 common murmur3 bits), unicode, hex-like, whitespace and long (<=300 B) names: AddChild new/replace, RemoveChild present/missing, Find, Links, ForEachLink, EnumLinksAsync, reload with MFS-style settings carry-over; map model compared after every mutation, all APIs after every reload and at the end; non-trivial = a removal from a HAMT collapsed a sub-shard (model shard count decreased) or a reload happened between edits",
+	Quick: 1500, Thorough: 8000,
 	Gen: gen, Run: run,
 	Sample: func(c Case) any {
 		ops := c.Ops
